@@ -169,9 +169,9 @@ WIN_HANDLE_CLASSES = {
     "C05": ("win-closes-callers-handle", "win-thread-handle", "win-fault-leak", "win-start-leak", "win-destroy-closes", "win-redirect-handle-closed"),
     "C04": ("win-fault-wrong-error", "win-fault-handle-set", "win-fault-process-created"),
     # src/win.c --life: wait / terminate / kill / pid of process.windows.c at the Win32 boundary
-    "C01": ("win-wait-status",),
+    "C01": ("win-wait-status", "win-life-failure-not-reported"),
     "C06": ("win-wait-target", "win-terminate-target", "win-kill-target", "win-pid"),
-    "C07": ("win-terminate-target", "win-kill-target"),
+    "C07": ("win-terminate-target", "win-kill-target", "win-life-failure-not-reported"),
 }
 WIN_MODE = {"C10": ["--handles", "--redirect"], "C11": ["--handles", "--redirect"], "C05": ["--handles", "--life", "--redirect"], "C04": ["--handles"],
             "C01": ["--life"], "C06": ["--life"], "C07": ["--life"]}
